@@ -563,6 +563,7 @@ func main() {
 	}
 	both := []int{pg.ModelT, pg.ModelS}
 	all, core := pg.OpsFor(false, false), pg.OpsFor(true, false)
+	all2 := pg.OpsWith(false, false, false) // 2-call programs: without the shortest-spelling template calls (C01 matter)
 	var plan string
 	// update / delete finishers, for the handles without AllowGlobalUpdate
 	guarded := func(fins []*pg.Fin) []*pg.Fin {
@@ -582,8 +583,8 @@ func main() {
 		addItems(pg.Shapes(both, pg.Seqs(all, 0, 1), guarded(pg.FinsFor(false, true))), 0, nil, 1)
 		addItems(pg.Shapes(both, pg.Seqs(all, 0, 1), guarded(pg.FinsFor(false, true))), 0, nil, 2)
 		onlyS := []int{pg.ModelS} // timestamps + soft delete: the richer model
-		addItems(pg.Shapes(onlyS, pg.Seqs(all, 2, 2), guarded(pg.FinsFor(true, true))), 0, nil, 1)
-		addItems(pg.Shapes(onlyS, pg.Seqs(all, 2, 2), pg.FinsFor(true, true)), 0, nil, 0)
+		addItems(pg.Shapes(onlyS, pg.Seqs(all2, 2, 2), guarded(pg.FinsFor(true, true))), 0, nil, 1)
+		addItems(pg.Shapes(onlyS, pg.Seqs(all2, 2, 2), pg.FinsFor(true, true)), 0, nil, 0)
 		plan = fmt.Sprintf("<=1 call over %d calls x %d finishers x 2 models with <=1 slot deviating over %d path classes; 2 calls x %d representative finishers x model S with default classes", len(all), len(pg.FinsFor(false, true)), len(pg.PathClasses), len(pg.FinsFor(true, true)))
 	} else {
 		addItems(pg.Shapes(both, pg.Seqs(all, 0, 1), pg.FinsFor(false, true)), 1, nil, 0)
@@ -592,9 +593,9 @@ func main() {
 		}
 		addItems(pg.Shapes(both, pg.Seqs(all, 0, 1), guarded(pg.FinsFor(false, true))), 1, pg.PathClasses, 1)
 		addItems(pg.Shapes(both, pg.Seqs(all, 0, 1), guarded(pg.FinsFor(false, true))), 0, nil, 2)
-		addItems(pg.Shapes(both, pg.Seqs(all, 2, 2), guarded(pg.FinsFor(false, true))), 0, nil, 1)
-		addItems(pg.Shapes(both, pg.Seqs(all, 2, 2), pg.FinsFor(false, true)), 0, nil, 0)
-		addItems(pg.Shapes(both, pg.Seqs(all, 2, 2), pg.FinsFor(true, true)), 1, pg.PathClasses, 0)
+		addItems(pg.Shapes(both, pg.Seqs(all2, 2, 2), guarded(pg.FinsFor(false, true))), 0, nil, 1)
+		addItems(pg.Shapes(both, pg.Seqs(all2, 2, 2), pg.FinsFor(false, true)), 0, nil, 0)
+		addItems(pg.Shapes(both, pg.Seqs(all2, 2, 2), pg.FinsFor(true, true)), 1, pg.PathClasses, 0)
 		addItems(pg.Shapes([]int{pg.ModelS}, pg.Seqs(core, 3, 3), pg.FinsFor(true, true)), 0, nil, 0)
 		plan = fmt.Sprintf("<=1 call over %d calls x %d finishers x 2 models with <=1 slot deviating over all %d classes; 2 calls x all finishers x 2 models with default classes and x %d representative finishers with <=1 slot deviating over %d path classes; 3 calls over the reduced alphabet of %d calls x representative finishers x model S", len(all), len(pg.FinsFor(false, true)), int(pg.NumClasses), len(pg.FinsFor(true, true)), len(pg.PathClasses), len(core))
 	}
